@@ -170,6 +170,82 @@ def execute(case):
     return {"ok": not fails, "failures": fails, "outcome": "+".join(sorted(outcomes)), "nontrivial": any(c < len(doc) for c in case["cuts"]), "n": len(case["cuts"])}
 
 
+def execute_crash(case):
+    """REAL crash points of the real write path: a child process (fork) opens the product with create_cache=True while no file may
+    grow beyond k bytes and SIGXFSZ has its default action - the kernel kills the child at byte k of whichever cache file it is
+    writing (no handler, no ``finally``, nothing flushed or cleaned up).  Whatever that leaves in the user cache directory (torn
+    documents, temporary files, lock files) is the post-crash state the parent then opens, repairs and opens again."""
+    import os
+    import resource
+    import signal
+
+    st = setup(case["level"])
+    prod, ref, names, cdir = st["prod"], st["ref"], st["names"], st["cdir"]
+    fails, outcomes = [], {}
+
+    def bad(kind, k, detail, **extra):
+        sig = {"kind": kind, "crash": True, **extra}
+        if core.jkey(sig) not in {core.jkey(f["sig"]) for f in fails}:
+            fails.append({"sig": sig, "detail": f"{case['level']} writer killed when a cache file reaches {k} bytes: {detail}", "case": {**case, "limits": [k]}})
+
+    for k in case["limits"]:
+        clear(st)
+        env.wipe_cache()
+        pid = os.fork()
+        if pid == 0:
+            try:
+                signal.signal(signal.SIGXFSZ, signal.SIG_DFL)
+                resource.setrlimit(resource.RLIMIT_FSIZE, (k, resource.getrlimit(resource.RLIMIT_FSIZE)[1]))
+                prod.open(create_cache=True, records_per_chunk=2)
+                os._exit(0)
+            except BaseException:
+                os._exit(3)
+        _, status = os.waitpid(pid, 0)
+        killed = os.WIFSIGNALED(status) and os.WTERMSIG(status) == signal.SIGXFSZ
+        left = sorted((p.name, p.stat().st_size) for p in cdir.iterdir()) if cdir.exists() else []
+        out = "killed" if killed else f"exit:{os.WEXITSTATUS(status) if os.WIFEXITED(status) else status}"
+        if not killed and not (os.WIFEXITED(status) and os.WEXITSTATUS(status) == 0):
+            raise core.HarnessError(f"crash child ended with status {status} at limit {k}")
+        outcomes[out] = outcomes.get(out, 0) + 1
+        # 1: default open of the post-crash state
+        try:
+            d = treesnap.diff(ref, treesnap.snapshot(prod.open(records_per_chunk=2)))
+            if d:
+                bad("tree-differs-after-crash", k, f"{left}: {treesnap.short(d, 2)}")
+        except Exception as e:
+            bad("open-raises-after-crash", k, f"{left}: open_alos2 raises {type(e).__name__}: {str(e)[:100]}", exc=type(e).__name__)
+            continue
+        # 2: repair
+        try:
+            d = treesnap.diff(ref, treesnap.snapshot(prod.open(create_cache=True, records_per_chunk=2)))
+            if d:
+                bad("tree-differs-after-repair", k, treesnap.short(d, 2))
+            for n in names:
+                p = cdir / f"{n}.index"
+                try:
+                    json.loads(p.read_text())
+                except Exception:
+                    bad("cache-not-repaired", k, f"after the crash left {left}, create_cache=True leaves the index of {n} {'missing' if not p.exists() else 'incomplete'}")
+        except Exception as e:
+            bad("repair-raises", k, f"{left}: open_alos2(create_cache=True) raises {type(e).__name__}: {str(e)[:100]}", exc=type(e).__name__)
+            continue
+        # 3: the repaired cache is used
+        try:
+            vfs.reset_log()
+            t = prod.open(use_cache=True, records_per_chunk=2)
+            reads = [r for n in names for r in img_reads(n)]
+            d = treesnap.diff(ref, treesnap.snapshot(t))
+            if d:
+                bad("tree-differs-after-recovery", k, treesnap.short(d, 2))
+            if reads:
+                bad("line-records-reread-after-repair", k, f"{len(reads)} reads of the images at open time although create_cache=True ran after the crash (left {left})")
+        except Exception as e:
+            bad("cached-open-raises-after-repair", k, f"{type(e).__name__}: {str(e)[:100]}", exc=type(e).__name__)
+    clear(st)
+    env.wipe_cache()
+    return {"ok": not fails, "failures": fails, "outcome": "+".join(sorted(outcomes)), "nontrivial": outcomes.get("killed", 0) > 0, "n": len(case["limits"]), "killed": outcomes.get("killed", 0)}
+
+
 def execute_seam(case):
     """every prefix through sar_image.open_image (2 ms each)"""
     from ceos_alos2 import sar_image
@@ -293,10 +369,10 @@ def run(res, tier, seed):
         "for each image of a level 1.1 and a level 1.5 product (documents of ~10 kB / ~7 kB) and each location {user cache, adjacent}:"
         " every byte prefix 0..len through sar_image.open_image; through open_alos2 every prefix (thorough) or every 3rd structural"
         " JSON token +-1, every 32nd byte and the first/last 24 (quick; second image sparser), with the repair + cached-open steps on every 8th (quick) / 4th"
-        " (thorough); pairs torn+complete and torn+torn (both locations) at token positions; default opens while no file can grow beyond the prefix length (the volume is still full; RLIMIT_FSIZE) at every 25th|5th token; plus an 18000-line image whose index is > 5 MiB, cut at every power of two 2^12..2^22,"
+        " (thorough); pairs torn+complete and torn+torn (both locations) at token positions; REAL crash points: a forked child running create_cache=True is killed by the kernel (RLIMIT_FSIZE + default SIGXFSZ) when a cache file reaches k bytes, for k at every 40th|6th token, every 1024|64 bytes and the document ends, then default open / repair / cached open of whatever was left; default opens while no file can grow beyond the prefix length (the volume is still full; RLIMIT_FSIZE) at every 25th|5th token; plus an 18000-line image whose index is > 5 MiB, cut at every power of two 2^12..2^22,"
         " every MiB multiple and 5 MiB, in both locations (thorough: +-1 and every 64 KiB +-1, and a 6000-line image at every 4 KiB boundary +-1). A batch is non-trivial if it contains a proper prefix."
     )
-    res.assumptions = ["post-crash states of one in-place write_text = byte prefixes of the document (single file, append after truncate)", "a writer still running exposes the same prefixes to a reader", "real SIGKILLs are sampling and are not used"]
+    res.assumptions = ["post-crash states of one in-place write_text = byte prefixes of the document (single file, append after truncate)", "a writer still running exposes the same prefixes to a reader", "kills at wall-clock times are sampling and are not used; the kernel-delivered kill at an exact byte count is deterministic and enumerated"]
     # document lengths: ask one worker
     info = None
     for idx, case, out in core.pool_map(__name__, "doc_info", [{}], procs=1):
@@ -328,8 +404,23 @@ def run(res, tier, seed):
                     cases_full.append({"fn": "execute", "level": level, "image": image, "loc": loc, "cuts": c, "pair": True, "steps_every": every})
                     if loc == "local":
                         cases_full.append({"fn": "execute", "level": level, "image": image, "loc": loc, "cuts": c, "pair": "torn", "steps_every": every})
+    # real crash points: the writer is killed by the kernel when a cache file reaches k bytes
+    cases_crash = []
+    for level in ("1.1", "1.5"):
+        nmax = max(info[level])
+        toks = sorted({p for im in (0, 1) for p in info[level + ":tokens"][im]})
+        ks = sorted(set(toks[:: 6 if tier == "thorough" else 40]) | {0, 1, 2, 100, nmax // 2, min(info[level]) - 1, min(info[level]), nmax - 1, nmax, nmax + 1} | (set(range(0, nmax + 1, 64)) if tier == "thorough" else set(range(0, nmax + 1, 1024))))
+        for c in chunks(ks, 12):
+            cases_crash.append({"fn": "execute_crash", "level": level, "limits": c})
     n_states = 0
     order = 0
+    n_killed = 0
+    for idx, case, out in core.pool_map(__name__, "execute_crash", cases_crash, chunksize=1):
+        res.record({"fn": "execute_crash", "level": case["level"], "limits": [case["limits"][0], "..", case["limits"][-1]]}, out, order=order)
+        order += 1
+        n_states += out["n"]
+        n_killed += out.get("killed", 0)
+    res.extra["writers_killed_by_the_kernel"] = n_killed
     for fn, cases in (("execute_seam", cases_seam), ("execute", cases_full)):
         for idx, case, out in core.pool_map(__name__, fn, cases, chunksize=1):
             small = {k: v for k, v in case.items() if k != "cuts"} | {"cuts": [case["cuts"][0], "..", case["cuts"][-1]]}
